@@ -61,9 +61,25 @@ def gen_case(r, k, same=None, long_=False):
             v["lower"] = V.dyadic(r, -4, 4, bits=3)
         v["upper"] = v["lower"] + v["w"] * v["nx"]
         v["sub"] = r.random() < 0.35
-        # another bias on this variable: harmonic restraint, force = -k/w^2 (x - c0)
-        v["hk"] = r.choice([0.5, 1.0, 2.0]) if r.random() < 0.5 else None
+        # other biases on this variable.  At most one acting through colvar::fb (harmonic restraint, force -k/w^2 (x - c0);
+        # linear, force -k/w; harmonicWalls with bypassExtendedLagrangian off) and at most one acting through
+        # colvar::fb_actual (harmonicWalls with its default bypassExtendedLagrangian on), so that the floating-point sum
+        # ((abf + fb) - fj) + fb_actual of the code is the one of the model
+        kk = r.random()
+        v["hk"] = r.choice([0.5, 1.0, 2.0]) if kk < 0.4 else None
         v["hc"] = V.dyadic(r, -2, 2, bits=2) + v["lower"]
+        v["lk"] = r.choice([-2.0, -0.5, 1.0, 4.0]) if (0.4 <= kk < 0.5 and not v["periodic"]) else None      # linear refuses periodic variables
+        wallsfb = 0.5 <= kk < 0.6 and not v["periodic"]
+        wallsact = (not v["periodic"]) and r.random() < 0.3
+        v["walls"] = None
+        if wallsfb or wallsact:
+            # walls INSIDE the grid (crossed by the values that visit the outer bins and beyond)
+            span = v["w"] * v["nx"]
+            lo = v["lower"] + r.choice([0.25, 0.5, 1.0]) * v["w"]
+            hi = v["upper"] - r.choice([0.25, 0.5, 1.0]) * v["w"]
+            if hi <= lo:      # the upper wall must be above the lower one (one-bin grids: walls around the middle)
+                lo, hi = v["lower"] + 0.25 * v["w"], v["upper"] - 0.25 * v["w"]
+            v["walls"] = {"k": r.choice([0.5, 1.0, 2.0]), "lo": lo, "hi": hi, "bypass": not wallsfb}
         vars_.append(v)
     full = r.randint(1, 6)
     mn = r.randint(0, full - 1) if full > 1 else 0
@@ -87,6 +103,12 @@ def gen_case(r, k, same=None, long_=False):
             icnt = [r.choice([0, 0, 1, 2, 3, 5, 8]) for _ in range(nt)]
             c["input"].append({"cnt": icnt, "grad": [(V.dyadic(r, -4, 4, bits=2) if icnt[a] > 0 else 0.0) for a in range(nt) for _ in range(nd)]})
     # applyBias switched at run time (cv bias a set apply_force 0|1) before some steps
+    # colvarbias_abf::init: fullSamples <= 1 means fullSamples 1 and minSamples 0, whatever minSamples says
+    if full == 1 and r.random() < 0.5:
+        c["full_cfg"], c["min_cfg"] = r.choice([0, 1]), r.choice([0, 2, 7])      # (negative values: size_t parsing, C10)
+    # stepZeroData written in the configuration of a bias with lagged total forces: the feature is excluded by
+    # f_cvb_get_total_force there (colvarbias.cpp) and has no effect: the model runs with c_szd = false (wf_cfg)
+    c["szd_cfg"] = c["szd"] or ((not same) and r.random() < 0.2)
     c["toggle"] = r.random() < 0.2
     # timeStepFactor k > 1 on the bias and its variables (only allowed with same-step total forces): they are
     # awake at the steps that are multiples of k (model: abf_mstep).  No restraint (its own timeStepFactor would be 1)
@@ -95,7 +117,7 @@ def gen_case(r, k, same=None, long_=False):
     if c["tsf"] > 1:
         c["toggle"] = False
         for v in vars_:
-            v["hk"] = None
+            v["hk"] = v["lk"] = v["walls"] = None
     # state-file events: before some steps the state is saved (text or binary) and loaded again, into a new instance
     # with the same configuration (restart) or into the running instance (reload); more often for 1-D periodic grids,
     # whose zero-mean term must be that of the grids that were read
@@ -172,7 +194,7 @@ def apply_at(c, st):
 
 def cv_applies(c, st, d):
     """f_cv_apply_force of variable d at a step: some bias applies forces to it"""
-    return apply_at(c, st) or c["vars"][d]["hk"] is not None
+    return apply_at(c, st) or has_other(c["vars"][d])
 
 
 def inputs_of(c):
@@ -241,8 +263,39 @@ def harm_force(v, x):
     return -0.5 * v["hk"] / (v["w"] * v["w"]) * (2.0 * d)
 
 
+def walls_force(v, x):
+    """colvarbias_restraint_harmonic_walls::restraint_force: -k * scale / w^2 * dist, dist = x - wall beyond a wall, 0 between"""
+    wl = v.get("walls")
+    if not wl:
+        return 0.0
+    dist = (x - wl["lo"]) if x < wl["lo"] else ((x - wl["hi"]) if x > wl["hi"] else 0.0)
+    return -wl["k"] * 1.0 / (v["w"] * v["w"]) * dist
+
+
+def has_other(v):
+    """a bias other than the abf applies forces to the variable (f_cv_apply_force)"""
+    return v["hk"] is not None or v.get("lk") is not None or bool(v.get("walls"))
+
+
 def other_forces(c, st):
-    return [harm_force(v, colvar_value(v, z)) for v, z in zip(c["vars"], st["z"])]
+    """forces applied through colvar::fb by the other biases: harmonic, linear (-1.0 * k / w), walls without bypass"""
+    out = []
+    for v, z in zip(c["vars"], st["z"]):
+        x = colvar_value(v, z)
+        if v["hk"] is not None:
+            out.append(harm_force(v, x))
+        elif v.get("lk") is not None:
+            out.append(-1.0 * v["lk"] / v["w"] * 1.0)
+        elif v.get("walls") and not v["walls"]["bypass"]:
+            out.append(walls_force(v, x))
+        else:
+            out.append(0.0)
+    return out
+
+
+def bypass_forces(c, st):
+    """forces applied through colvar::fb_actual (biases that bypass the extended Lagrangian: harmonicWalls by default)"""
+    return [(walls_force(v, colvar_value(v, z)) if v.get("walls") and v["walls"]["bypass"] else 0.0) for v, z in zip(c["vars"], st["z"])]
 
 
 def fmt(x):
@@ -303,11 +356,11 @@ def config_lines(c, part="all"):
             L += ["    period %s" % fmt(v["P"]), "    wrapAround %s" % fmt(v["c"])]
         L += ["  }", "}"]
     abf = ["abf {", "  name a", "  colvars " + " ".join("v%d" % d for d in range(nd)),
-           "  fullSamples %d" % c["full"], "  minSamples %d" % c["min"],
+           "  fullSamples %d" % c.get("full_cfg", c["full"]), "  minSamples %d" % c.get("min_cfg", c["min"]),
            "  applyBias %s" % ("on" if c["apply"] else "off"), "  updateBias %s" % ("on" if c["update"] else "off")]
     if c["cap"]:
         abf += ["  maxForce " + " ".join(fmt(m) for m in c["maxf"])]
-    if c["szd"]:
+    if c.get("szd_cfg", c["szd"]):
         abf += ["  stepZeroData on"]
     if c.get("tsf", 1) > 1:
         abf += ["  timeStepFactor %d" % c["tsf"]]
@@ -324,6 +377,14 @@ def config_lines(c, part="all"):
         v = c["vars"][d]
         harm += ["harmonic {", "  name h%d" % d, "  colvars v%d" % d, "  centers %s" % fmt(v["hc"]),
                  "  forceConstant %s" % fmt(v["hk"]), "}"]
+    for d, v in enumerate(c["vars"]):
+        if v.get("lk") is not None:
+            harm += ["linear {", "  name l%d" % d, "  colvars v%d" % d, "  centers %s" % fmt(v["lower"]),
+                     "  forceConstant %s" % fmt(v["lk"]), "}"]
+        if v.get("walls"):
+            wl = v["walls"]
+            harm += ["harmonicWalls {", "  name w%d" % d, "  colvars v%d" % d, "  lowerWalls %s" % fmt(wl["lo"]), "  upperWalls %s" % fmt(wl["hi"]),
+                     "  forceConstant %s" % fmt(wl["k"]), "  bypassExtendedLagrangian %s" % ("on" if wl["bypass"] else "off"), "}"]
     if part == "abf":
         return ["config EOF"] + abf + ["EOF"]
     if part == "noabf":
@@ -425,7 +486,7 @@ def model_case(c, im=None):
     parts += [V.hexf(m) for m in c["maxf"]]
     parts += [str(int(c["szd"])), str(int(c["same"]))] + [str(int(v["sub"])) for v in vs]
     parts += [str(int(c["hideJ"]))]
-    parts += [str(int(v["hk"] is not None)) for v in vs]
+    parts += [str(int(has_other(v))) for v in vs]
     nt = 1
     for v in vs:
         nt *= v["nx"]
@@ -451,11 +512,12 @@ def model_case(c, im=None):
         parts += [V.hexf(o) for o in other_forces(c, st)]
         parts += [V.hexf(j) for j in jac_forces(c, st)]
         parts += [str(int(st["boundary"])), str(int(apply_at(c, st)))]
+        parts += [V.hexf(w_) for w_ in bypass_forces(c, st)]
     return " ".join(parts)
 
 
 # ------------------------------------------------------------------------------- parsing
-KEYS = ("bin", "fbin", "cf", "tf", "af", "cnt", "sum", "go", "per", "nx")
+KEYS = ("bin", "fbin", "cf", "tf", "af", "cnt", "sum", "go", "scr", "per", "nx")
 
 
 def parse_fields(tokens):
@@ -469,7 +531,7 @@ def parse_fields(tokens):
         elif cur is not None:
             # a token cut short by a crash of the implementation (or garbage) never compares equal
             try:
-                if cur in ("bin", "fbin", "cnt", "per", "nx"):
+                if cur in ("bin", "fbin", "cnt", "per", "nx", "scr"):
                     out[cur].append(int(t))
                 else:
                     out[cur].append(float.fromhex(t))
@@ -602,12 +664,13 @@ def expected_samples(c):
         if not in_grid(c, ix):
             continue
         o = other_forces(c, st)
+        wb = bypass_forces(c, st)
         j = jac_forces(c, st)
         F = []
         for d, v in enumerate(c["vars"]):
             f = Fr(st["e"][d])
             if not c["same"] and not v["sub"]:
-                f += Fr(o[d])
+                f += Fr(o[d]) + Fr(wb[d])     # the forces of the other biases of both kinds stay in the sample
             if not c["hideJ"]:
                 f += Fr(j[d])       # the Jacobian term is part of the total force unless hideJacobian
             F.append(f)
@@ -762,6 +825,8 @@ def oracle(c, impl_steps, state=None, files=None, loads=None):
         jj = [(j if c["hideJ"] and cv_applies(c, st, d) else 0.0) for d, j in enumerate(jac_forces(c, st))]
         sf = scale_factor(c, st)
         # impulse multiple time stepping: the force applied at an awake step is multiplied by timeStepFactor
+        wb = bypass_forces(c, st)
+        o = [Fr(a_) + Fr(b_) for a_, b_ in zip(o, wb)]      # every other bias, through fb or fb_actual
         if not all(close(Fr(a) * sf * tsf + Fr(b) - Fr(j) * tsf, g) for a, b, j, g in zip(f["cf"], o, jj, f["af"])):
             bad.append(("oracle:af", "step %d: force applied to the variables %s is not (ABF force %s * scaling factor %s - hidden Jacobian force %s) * timeStepFactor %d + restraint force %s" % (t, f["af"], f["cf"], float(sf), jj, tsf, o)))
             break
@@ -811,10 +876,10 @@ def oracle(c, impl_steps, state=None, files=None, loads=None):
         hj = [d for d in jvar if c["same"] and not c["vars"][d]["sub"]]
         # hideJacobian, lagged forces, no bias applies a force to the variable (applyBias off, no restraint): the
         # compensating force -fj never reaches the atoms but fj is added to / f_old subtracted from the measured force
-        hn = [d for d in jvar if not c["same"] and not c["apply"] and not c.get("toggle") and c["vars"][d]["hk"] is None]
+        hn = [d for d in jvar if not c["same"] and not c["apply"] and not c.get("toggle") and not has_other(c["vars"][d])]
         # hideJacobian, lagged forces, applyBias switched at run time on a distance variable without another bias:
         # collect_cvc_total_forces looks at f_cv_apply_force of the current step for the force of the previous one
-        hs = [d for d in jvar if not c["same"] and c.get("toggle") and c["vars"][d]["hk"] is None]
+        hs = [d for d in jvar if not c["same"] and c.get("toggle") and not has_other(c["vars"][d])]
         if zt:
             sig, why = "sample:subtractAppliedForce-zero-total-force", " (measured total force exactly zero at (step,variable) %s)" % zt[:3]
         elif vz:
@@ -863,7 +928,7 @@ def oracle(c, impl_steps, state=None, files=None, loads=None):
 # `_refuted` theorems of the first version of this slice, now Examples E1..E4 of Properties_C04.v).  They are
 # replayed on the implementation at every run, first, so that a regression is reported with the minimal input.
 def _v1(**kw):
-    v = {"kind": "dz", "periodic": False, "w": 1.0, "nx": 2, "lower": 0.0, "upper": 2.0, "sub": False, "hk": None, "hc": 0.0}
+    v = {"kind": "dz", "periodic": False, "w": 1.0, "nx": 2, "lower": 0.0, "upper": 2.0, "sub": False, "hk": None, "hc": 0.0, "lk": None, "walls": None}
     v.update(kw)
     return v
 
@@ -1140,6 +1205,23 @@ def judge_cap_order(c, steps):
     return None
 
 
+def witness_walls_subtract():
+    """W14: subtractAppliedForce, lagged forces, harmonicWalls (bypassExtendedLagrangian on, the default) with the upper wall at 1.25
+    inside the grid [0,2): the variable sits at 1.5 (bin 1, beyond the wall: wall force -1 * 0.25 = -0.25) with engine force 2 at every
+    step: every sample is the system force 2 (count 3, sum -6): the wall force is part of what Colvars applied and is subtracted."""
+    v = _v1(sub=True, walls={"k": 1.0, "lo": 0.25, "hi": 1.25, "bypass": True})
+    return _c1("W14", v, [(1.5, 2.0, False)] * 4, full=2, min=0, apply=True)
+
+
+def judge_walls_subtract(c, steps):
+    last = steps[-1]
+    if last["cnt"] != [0, 3] or last["sum"][1] != -6.0:
+        return ("subtractAppliedForce on, lagged total forces, harmonicWalls (bypassing the extended Lagrangian: force through fb_actual) with the upper wall at 1.25, "
+                "variable at 1.5 (wall force -0.25), engine force 2: the three samples are the system force 2, counts (0, 3), sum of bin 1 = -6; the implementation has "
+                "counts %s and sums %s (applied force reported %s): the wall force is not in f_old and stays in the sample" % (last["cnt"], last["sum"], steps[-1]["af"][0]))
+    return None
+
+
 WITNESSES = ((witness_zero_total, "sample:subtractAppliedForce-zero-total-force", judge_zero_total),
              (witness_zero_total_abf, "sample:subtractAppliedForce-zero-total-force", judge_zero_total_abf),
              (witness_value_zero, "sample:force-dropped-at-value-zero", judge_value_zero),
@@ -1152,6 +1234,7 @@ WITNESSES = ((witness_zero_total, "sample:subtractAppliedForce-zero-total-force"
              (witness_hidej_switched, "sample:hideJacobian-applyBias-switched", judge_hidej_switched),
              (witness_input, "sample:inputPrefix-data", judge_input),
              (witness_restart_zero_mean, "force:periodic-zero-mean", judge_restart_zero_mean),
+             (witness_walls_subtract, "sample:subtractAppliedForce-bypassing-bias-not-subtracted", judge_walls_subtract),
              (witness_cap_order, "force:cap", judge_cap_order),
              (witness_reload_stale, "sample:reload-stale-total-force", judge_reload_stale),
              (witness_late, "sample:bias-defined-at-run-time-bin0", judge_late),
@@ -1188,7 +1271,7 @@ def run_batch(exe, cases, d, tag):
     return rc, res, e
 
 
-def compare_fields(a, b, keys=("bin", "fbin", "cnt", "sum", "tf", "cf", "af", "go")):
+def compare_fields(a, b, keys=("bin", "fbin", "cnt", "sum", "tf", "cf", "af", "go", "scr")):
     for k in keys:
         if a.get(k) != b.get(k):
             # -0.0 == 0.0 in python; NaN never equal
@@ -1202,7 +1285,7 @@ def setup():
         V.build_prog(n, s)
 
 
-SHOWN = ("bin", "fbin", "cf", "tf", "af", "cnt", "sum", "go")
+SHOWN = ("bin", "fbin", "cf", "tf", "af", "cnt", "sum", "go", "scr")
 
 
 def tie_case(run, c, im, mline):
@@ -1218,7 +1301,7 @@ def tie_case(run, c, im, mline):
             # first update of a bias defined at run time: the reported total force of a variable that was already measuring
             # total forces (subtractAppliedForce) is that of the last step before the definition, which the model of the
             # bias does not contain; everything else is compared
-            bad = compare_fields(a, b, keys=("bin", "fbin", "cnt", "sum", "cf", "af", "go"))
+            bad = compare_fields(a, b, keys=("bin", "fbin", "cnt", "sum", "cf", "af", "go", "scr"))
         else:
             bad = compare_fields(a, b)
         if bad:
@@ -1253,6 +1336,7 @@ def check(run):
     d = V.scratch("C04")
 
     run_witnesses(run, unit, model, d)
+    run_rejections(run, unit, d)
 
     n = 320 if quick else 20000
     cases = []
@@ -1310,6 +1394,9 @@ def check(run):
         run.dist("subtract_vars", sum(1 for v in c["vars"] if v["sub"]))
         run.dist("periodic_1d", 1 if nd == 1 and c["vars"][0]["periodic"] else 0)
         run.dist("restrained_vars", sum(1 for v in c["vars"] if v["hk"] is not None))
+        run.dist("linear_bias_vars", sum(1 for v in c["vars"] if v.get("lk") is not None))
+        run.dist("harmonicWalls_bypass_vars", sum(1 for v in c["vars"] if v.get("walls") and v["walls"]["bypass"]))
+        run.dist("harmonicWalls_nobypass_vars", sum(1 for v in c["vars"] if v.get("walls") and not v["walls"]["bypass"]))
         run.dist("distance_vars_with_jacobian", sum(1 for v in c["vars"] if kind(v) == "dist" and c.get("T", 0.0) != 0.0))
         run.dist("hideJacobian", 1 if c["hideJ"] else 0)
         run.dist("two_component_vars", sum(1 for v in c["vars"] if kind(v) == "lin2"))
@@ -1333,6 +1420,31 @@ def check(run):
         if k < 2:
             run.sample({"scenario": scenario(c)[:60], "final": steps_i[-1] if steps_i else None, "state": im.get("state")})
     run.cov["correspondence"].update({"scenarios": len(cases), "steps": sum(len(c["steps"]) for c in cases), "state_files_checked": nstate})
+
+
+def run_rejections(run, unit, d):
+    """configurations that colvarbias_abf::init must refuse (malformed stream): minSamples >= fullSamples, an abf without
+    variables, stepZeroData with lagged total forces"""
+    base = _c1("R", _v1(), [(0.5, 1.0, False)], full=2, min=1, apply=True)
+    bad = []
+    for name, kw, repl in (("min-ge-full", {"full": 3, "min": 3}, None), ("min-gt-full", {"full": 2, "min": 5}, None),
+                           ("no-colvars", {}, ("  colvars v0", "  colvars"))):
+        c = dict(base)
+        c.update(kw)
+        c["id"] = "R_" + name
+        L = scenario(c)
+        if repl:
+            L = [(repl[1] if l == repl[0] else l) for l in L]
+        sc = os.path.join(d, "rej_%s.scn" % name)
+        with open(sc, "w") as f:
+            f.write("\n".join(L) + "\n")
+        rc, o, e = V.sh([unit, sc], cwd=d, timeout=120)
+        cfg = [l for l in o.split("\n") if l.startswith("CONFIG")]
+        run.count(c["id"], True)
+        run.dist("rejected_configurations")
+        if rc != 0 or not cfg or "err=ok" in cfg[0]:
+            run.violation("config:accepted-" + name, "abf configuration %s must be refused by colvarbias_abf::init, the implementation answered %s (rc=%d)"
+                          % (name, cfg[:1], rc), {"kind": "scenario", "lines": L})
 
 
 def run_witnesses(run, unit, model, d):
